@@ -282,9 +282,9 @@ fn subtype_collect_(
         (Null, Opt(_)) => (),
         // For opt rules we delegate to the existing subtype_ to test the condition,
         // since these are probes, not things that generate multiple independent errors.
-        (Opt(ty1), Opt(ty2)) if subtype_(report, gamma, env, ty1, ty2, depth).is_ok() => {}
+        (Opt(ty1), Opt(ty2)) if probe(gamma, |g| subtype_(report, g, env, ty1, ty2, depth)) => {}
         (_, Opt(ty2))
-            if subtype_(report, gamma, env, t1, ty2, depth).is_ok()
+            if probe(gamma, |g| subtype_(report, g, env, t1, ty2, depth))
                 && !matches!(
                     env.trace_type_with_depth(ty2, depth)
                         .map(|t| t.as_ref().clone()),
@@ -512,6 +512,20 @@ fn pp_modes(modes: &[super::internal::FuncMode]) -> String {
         .join(" ")
 }
 
+/// Run a sub-check whose failure the caller is going to ignore (the `opt` rules try a
+/// sub-goal and fall back to another rule when it fails). A failed attempt must not leave
+/// the co-inductive assumptions it made in `gamma`: they were only justified under the
+/// goal that turned out to be false, and a later query would wrongly take them for granted.
+fn probe(gamma: &mut Gamma, check: impl FnOnce(&mut Gamma) -> Result<()>) -> bool {
+    let saved = gamma.clone();
+    if check(gamma).is_ok() {
+        true
+    } else {
+        *gamma = saved;
+        false
+    }
+}
+
 fn subtype_(
     report: OptReport,
     gamma: &mut Gamma,
@@ -562,9 +576,11 @@ fn subtype_(
         (Service(_), Principal) => Ok(()),
         (Vec(ty1), Vec(ty2)) => subtype_(report, gamma, env, ty1, ty2, depth),
         (Null, Opt(_)) => Ok(()),
-        (Opt(ty1), Opt(ty2)) if subtype_(report, gamma, env, ty1, ty2, depth).is_ok() => Ok(()),
+        (Opt(ty1), Opt(ty2)) if probe(gamma, |g| subtype_(report, g, env, ty1, ty2, depth)) => {
+            Ok(())
+        }
         (_, Opt(ty2))
-            if subtype_(report, gamma, env, t1, ty2, depth).is_ok()
+            if probe(gamma, |g| subtype_(report, g, env, t1, ty2, depth))
                 && !matches!(
                     env.trace_type_with_depth(ty2, depth)?.as_ref(),
                     Null | Reserved | Opt(_)
